@@ -487,10 +487,8 @@ def real_health(st):
         return {"raises": False}
     except _Hang:
         return {"raises": "hang"}
-    except Exception as ex:
-        if isinstance(ex, ValueError):
-            return {"raises": True}
-        return {"raises": "crash:" + _err(ex)}
+    except Exception:
+        return {"raises": True}       # whatever the class: recv_loop catches `Exception`
 
 
 def oracle_health(st, out):
@@ -1076,6 +1074,8 @@ def run_cluster_case(ctx, case, deadline=30.0, confirm=True):
     ctx.count(f"cluster:shape={case['hosts']}x{case['workers']}")
     ctx.count("cluster:ended=" + obs["ended"])
     viol = judge_cluster(case, obs)
+    ctx.extra.setdefault("cluster_runs", []).append({"case": {k: case[k] for k in ("fault", "when", "task", "hosts", "workers") if k in case}, "ended": obs["ended"],
+                                                      "t_run": obs.get("t_run"), "wall": obs.get("wall"), "verdicts": [s["kind"] for s, _ in viol]})
     if obs["ended"] == "infra":
         ctx.notes.append(f"cluster run could not be set up ({obs.get('error')}): {case}")
         return obs, []
@@ -1112,7 +1112,7 @@ def pick_cluster_cases(ctx):
     return core_set + rest[: max(0, 56 - len(core_set))]
 
 
-def cluster_phase(ctx, cases, healthy=True):
+def cluster_phase(ctx, cases, healthy=True, stop_after=0):
     from ekw import c05_cluster as cl
     done = ctx.extra.setdefault("_cluster_done", [])
     if healthy:
@@ -1129,6 +1129,9 @@ def cluster_phase(ctx, cases, healthy=True):
         key = json.dumps(case, sort_keys=True)
         if key in done:
             continue
+        if stop_after and len({json.dumps(v["signature"], sort_keys=True) for v in ctx.violations if "cluster" in v["case"] and v["signature"]["kind"] != "leftover-shm"}) >= stop_after:
+            ctx.notes.append("search stopped: enough failing real-cluster inputs found")
+            break
         done.append(key)
         obs, viol = run_cluster_case(ctx, case)
         ctx.case({"cluster": case, "ended": obs["ended"], "t_run": obs.get("t_run")}, nontrivial=True)
@@ -1324,7 +1327,7 @@ def search(ctx, why):
         dict(fault="kill-shm-midreq", when="before", task="src", hosts=1, workers=2, victim="own"),
     ]
     ctx.count("search:invoked")
-    cluster_phase(ctx, targeted, healthy=False)
+    cluster_phase(ctx, targeted, healthy=False, stop_after=2)
 
 
 def replay(payload):
